@@ -1032,10 +1032,15 @@ std::string EvaluateCommandWithRspfile(const Edge* edge,
     return command;
 
   size_t index = command.find(rspfile);
-  if (index == 0 || index == string::npos ||
-      (command[index - 1] != '@' &&
-       command.find("--option-file=") != index - 14 &&
-       command.find("-f ") != index - 3))
+  if (index == 0 || index == string::npos)
+    return command;
+  // What stands directly before the response file's name?  (Compare in place:
+  // "index - 14" wraps around when the name comes early in the command.)
+  const bool at_syntax = command[index - 1] == '@';
+  const bool f_syntax = index >= 3 && command.compare(index - 3, 3, "-f ") == 0;
+  const bool option_file_syntax =
+      index >= 14 && command.compare(index - 14, 14, "--option-file=") == 0;
+  if (!at_syntax && !f_syntax && !option_file_syntax)
     return command;
 
   string rspfile_content = edge->GetBinding("rspfile_content");
@@ -1045,9 +1050,9 @@ std::string EvaluateCommandWithRspfile(const Edge* edge,
     rspfile_content.replace(newline_index, 1, 1, ' ');
     ++newline_index;
   }
-  if (command[index - 1] == '@') {
+  if (at_syntax) {
     command.replace(index - 1, rspfile.length() + 1, rspfile_content);
-  } else if (command.find("-f ") == index - 3) {
+  } else if (f_syntax) {
     command.replace(index - 3, rspfile.length() + 3, rspfile_content);
   } else {  // --option-file syntax
     command.replace(index - 14, rspfile.length() + 14, rspfile_content);
